@@ -737,13 +737,14 @@ Section Final.
     w2 = tw_flush_pending c (if (0 <? bw_n (tw_data w)) || (tw_n w =? 0) then tw_finish_block tp crc compress false w else w) [] ->
     tw_data w2 = mkBW [] 0 [] [] ->
     exists F ml,
-      tw_close tp crc compress c ri false fgen w =
+      (tw_close tp crc compress c ri false fgen w =
       let out3 := tw_out w2 ++ F in
       let M := block_build ri ml in
       let I := bw_finish (tw_index w2) in
       let metaBH := mkBH (lenN out3) (lenN M) in
       let indexBH := mkBH (lenN (out3 ++ nbytes M)) (lenN I) in
-      ((out3 ++ nbytes M) ++ nbytes I) ++ foot_of metaBH indexBH.
+      ((out3 ++ nbytes M) ++ nbytes I) ++ foot_of metaBH indexBH) /\
+      (ml = [] \/ exists wname fl, ml = [(filter_prefix ++ wname, encode_bh (mkBH (lenN (tw_out w2)) fl))] /\ lenN F = fl + 5).
   Proof.
     intros E2 Hdata. unfold tw_close. rewrite <- E2.
     assert (Emw0 : bw_finish (tw_data w2) = block_build ri []) by (rewrite Hdata; reflexivity).
@@ -754,10 +755,11 @@ Section Final.
       destruct (0 <? lenN content) eqn:Epos.
       + rewrite (wb_plain (lenN (tw_out w2)) content). cbn [bh_len]. rewrite Epos.
         exists (nbytes content), [(filter_prefix ++ name, encode_bh (mkBH (lenN (tw_out w2)) (lenN content)))].
-        rewrite Emw1, !wb_plain. cbv zeta. unfold foot_of. rewrite <- !app_assoc. reflexivity.
+        split; [rewrite Emw1, !wb_plain; cbv zeta; unfold foot_of; rewrite <- !app_assoc; reflexivity|].
+        right. exists name, (lenN content). split; [reflexivity | apply nbytes_len].
       + cbn [bh_len N.ltb N.compare]. exists [], [].
-        rewrite Emw0, !wb_plain. cbv zeta. unfold foot_of. rewrite !app_nil_r, <- !app_assoc. reflexivity.
-    - exists [], []. rewrite Emw0, !wb_plain. cbv zeta. unfold foot_of. rewrite !app_nil_r, <- !app_assoc. reflexivity.
+        split; [rewrite Emw0, !wb_plain; cbv zeta; unfold foot_of; rewrite !app_nil_r, <- !app_assoc; reflexivity | left; reflexivity].
+    - exists [], []. split; [rewrite Emw0, !wb_plain; cbv zeta; unfold foot_of; rewrite !app_nil_r, <- !app_assoc; reflexivity | left; reflexivity].
   Qed.
 
   Lemma foot_len metaBH indexBH : lenN (foot_of metaBH indexBH) = tp_footerLen tp.
@@ -767,14 +769,18 @@ Section Final.
     rewrite N2Nat.id. lia.
   Qed.
 
-  (* NewReader on such a file, for a reader without a filter *)
-  Lemma open_written body M metaBH indexBH verify :
+  (* NewReader on such a file; [fname] = the reader's filter name, if it has a filter *)
+  Lemma open_written body M metaBH indexBH fname verify :
     let file := body ++ foot_of metaBH indexBH in
     bh_off metaBH < 2 ^ 64 -> bh_len metaBH < 2 ^ 64 -> bh_off indexBH < 2 ^ 64 -> bh_len indexBH < 2 ^ 64 ->
     read_block_at tp crc decompress file metaBH true = Ok M ->
-    open_table tp crc decompress fcontains c file None verify =
+    open_table tp crc decompress fcontains c file fname verify =
+    let mit := new_block_iter c M None true in
+    let filterBH := match fname with Some name => meta_scan (bi_fuel mit) mit name | None => None end in
     mkTR (read_block_at tp crc decompress file indexBH true)
-         (fun h => read_block_at tp crc decompress file h verify) None (bh_off metaBH).
+         (fun h => read_block_at tp crc decompress file h verify)
+         (match filterBH with Some h => read_filter_block tp crc decompress fcontains file h | None => None end)
+         (match filterBH with Some h => bh_off h | None => bh_off metaBH end).
   Proof.
     intros file H1 H2 H3 H4 HM. destruct tp_ok as (_ & Hm & Hf & _).
     pose proof (foot_len metaBH indexBH) as Hfl.
@@ -797,6 +803,41 @@ Section Final.
     unfold foot_of at 1. cbv zeta. rewrite <- app_assoc. rewrite (decode_bh_app metaBH _ H1 H2).
     unfold foot_of at 1. cbv zeta. rewrite <- app_assoc. rewrite dropN_app. rewrite (decode_bh_app indexBH _ H3 H4).
     rewrite HM. reflexivity.
+  Qed.
+
+  (* the metaindex scan of NewReader over the block Close wrote: nothing, or the filter handle *)
+  Lemma meta_scan_built ml name wname fBH :
+    lenN (block_build ri ml) < 2 ^ 32 -> bh_off fBH < 2 ^ 64 -> bh_len fBH < 2 ^ 64 ->
+    (ml = [] \/ ml = [(filter_prefix ++ wname, encode_bh fBH)]) ->
+    let mit := new_block_iter c (built ri ml) None true in
+    meta_scan (bi_fuel mit) mit name = None \/ meta_scan (bi_fuel mit) mit name = Some fBH.
+  Proof.
+    intros Hsz Ho Hl Hml mit.
+    pose proof (build_layout ri ml ri_pos Hsz) as lay.
+    assert (Hfu : exists f, bi_fuel mit = S (S f)).
+    { unfold mit, bi_fuel. cbn [new_block_iter bi_unsliced bi_blk built b_data].
+      pose proof (block_build_len_pos ri ml) as H4. unfold lenN in H4.
+      destruct (length (block_build ri ml)) as [|[|n]] eqn:E; try lia. eauto. }
+    destruct Hfu as (f & Ef). rewrite Ef. cbn [meta_scan].
+    destruct (next_step ml _ _ _ lay mit CSOI (rep_unsliced _ _ _ _)) as (ok & it' & E & R & Eok).
+    rewrite E. destruct Hml as [-> | ->].
+    - cbn [c_next] in Eok. unfold c_first in Eok. subst ok. left. reflexivity.
+    - cbn [c_next] in R, Eok. unfold c_first in R, Eok. subst ok. cbn [negb].
+      pose proof R as (_ & _ & _ & Hk & Hv & _).
+      unfold key_at, val_at in Hk, Hv. cbn [nth fst snd] in Hk, Hv. rewrite Hk, Hv.
+      assert (Esw : starts_with filter_prefix (filter_prefix ++ wname) = true).
+      { unfold starts_with. rewrite takeN_app. apply andb_true_intro. split; [apply beq_eq; reflexivity|].
+        rewrite lenN_app. lia. }
+      rewrite Esw, dropN_app. cbn [andb].
+      destruct (beq wname name).
+      + rewrite (decode_encode_bh _ Ho Hl). right. reflexivity.
+      + (* the name differs: the scan goes on and ends *)
+        assert (R' : rep [(filter_prefix ++ wname, encode_bh fBH)] (built ri [(filter_prefix ++ wname, encode_bh fBH)])
+                       (b_off ri [(filter_prefix ++ wname, encode_bh fBH)]) (b_ris ri [(filter_prefix ++ wname, encode_bh fBH)]) it' (CAt 0)).
+        { destruct (next_step _ _ _ _ lay mit CSOI (rep_unsliced _ _ _ _)) as (ok2 & it2 & E2 & R2 & _).
+          rewrite E in E2. injection E2 as _ <-. exact R2. }
+        destruct (next_step _ _ _ _ lay it' (CAt 0) R') as (ok3 & it3 & E3 & R3 & Eok3). rewrite E3.
+        cbn [c_next length Nat.ltb Nat.leb] in Eok3. subst ok3. left. reflexivity.
   Qed.
 
   (* ---------------- order facts inside and across blocks ---------------- *)
@@ -845,12 +886,12 @@ Section Final.
   Qed.
 
   (* ---------------- the theorem ---------------- *)
-  Theorem table_wf_of_write kvs file verify :
+  Theorem table_wf_of_write kvs file fname verify :
     sorted c kvs ->
     twrite tp crc compress c blockSize ri false fgen kvs = Some file ->
     lenN file < 2 ^ 32 ->
     exists blocks seps hs,
-      table_wf c (open_table tp crc decompress fcontains c file None verify) blocks seps hs /\
+      table_wf c (open_table tp crc decompress fcontains c file fname verify) blocks seps hs /\
       tkvs blocks = kvs.
   Proof.
     intros Hsorted Hw Hsize. unfold twrite in Hw.
@@ -862,7 +903,7 @@ Section Final.
     destruct (close_state tp crc compress c c_ok empty_least ri ri_pos false plen_pos w g Hinv) as (bl & seps & Hcl & Ebl).
     cbv zeta in Hcl.
     set (w2 := tw_flush_pending c (if (0 <? bw_n (tw_data w)) || (tw_n w =? 0) then tw_finish_block tp crc compress false w else w) []) in *.
-    destruct (tw_close_shape w w2 eq_refl (cl_data _ _ _ _ _ _ _ _ _ Hcl)) as (F & ml & Eshape).
+    destruct (tw_close_shape w w2 eq_refl (cl_data _ _ _ _ _ _ _ _ _ Hcl)) as (F & ml & Eshape & Hml).
     rewrite Eshape in Hfile. cbv zeta in Hfile.
     rewrite (cl_out _ _ _ _ _ _ _ _ _ Hcl), (cl_index _ _ _ _ _ _ _ _ _ Hcl) in Hfile.
     set (hs := handles_from 0 bl) in *.
@@ -894,15 +935,30 @@ Section Final.
       unfold read_block_at. rewrite R by (rewrite nbytes_len; lia). cbn [bind_res]. rewrite EI.
       apply read_block_build; [lia | rewrite <- EI; lia]. }
     (* NewReader *)
-    assert (Hopen : open_table tp crc decompress fcontains c file None verify =
-                    mkTR (read_block_at tp crc decompress file indexBH true)
-                         (fun h => read_block_at tp crc decompress file h verify) None (bh_off metaBH)).
-    { rewrite <- Hfile. apply (open_written ((out3 ++ nbytes M) ++ nbytes I) (built ri ml) metaBH indexBH verify).
-      - cbn [metaBH bh_off]. unfold out3. rewrite lenN_app. lia.
-      - cbn [metaBH bh_len]. lia.
-      - cbn [indexBH bh_off]. rewrite lenN_app, nbytes_len. unfold out3. rewrite lenN_app. lia.
-      - cbn [indexBH bh_len]. lia.
-      - rewrite Hfile. exact HM. }
+    assert (Hopen : exists filt dataEnd,
+              open_table tp crc decompress fcontains c file fname verify =
+                mkTR (read_block_at tp crc decompress file indexBH true)
+                     (fun h => read_block_at tp crc decompress file h verify) filt dataEnd /\
+              lenN (out_of bl) <= dataEnd).
+    { pose proof (open_written ((out3 ++ nbytes M) ++ nbytes I) (built ri ml) metaBH indexBH fname verify) as Eo.
+      cbv zeta in Eo. rewrite Hfile in Eo.
+      assert (P1 : bh_off metaBH < 2 ^ 64) by (cbn [metaBH bh_off]; unfold out3; rewrite lenN_app; lia).
+      assert (P2 : bh_len metaBH < 2 ^ 64) by (cbn [metaBH bh_len]; lia).
+      assert (P3 : bh_off indexBH < 2 ^ 64) by (cbn [indexBH bh_off]; rewrite lenN_app, nbytes_len; unfold out3; rewrite lenN_app; lia).
+      assert (P4 : bh_len indexBH < 2 ^ 64) by (cbn [indexBH bh_len]; lia).
+      specialize (Eo P1 P2 P3 P4 HM).
+      rewrite Eo.
+      destruct fname as [name|].
+      - destruct Hml as [Eml | (wname & fl & Eml & HF)].
+        + destruct (meta_scan_built ml name [] (mkBH 0 0) ltac:(fold M; lia) ltac:(cbn; lia) ltac:(cbn; lia) (or_introl Eml)) as [E|E].
+          * rewrite E. eexists. eexists. split; [reflexivity|]. cbn [metaBH bh_off]. unfold out3. rewrite lenN_app. lia.
+          * exfalso. rewrite Eml in E. cbv in E. discriminate.
+        + rewrite (cl_out _ _ _ _ _ _ _ _ _ Hcl) in Eml.
+          destruct (meta_scan_built ml name wname (mkBH (lenN (out_of bl)) fl) ltac:(fold M; lia) ltac:(cbn [bh_off]; lia) ltac:(cbn [bh_len]; lia) (or_intror Eml)) as [E|E].
+          * rewrite E. eexists. eexists. split; [reflexivity|]. cbn [metaBH bh_off]. unfold out3. rewrite lenN_app. lia.
+          * rewrite E. eexists. eexists. split; [reflexivity|]. cbn [bh_off]. lia.
+      - eexists. eexists. split; [reflexivity|]. cbn [metaBH bh_off]. unfold out3. rewrite lenN_app. lia. }
+    destruct Hopen as (filt & dataEnd & Hopen & HdE).
     pose proof (cl_len _ _ _ _ _ _ _ _ _ Hcl) as Hlen.
     pose proof (cl_ne _ _ _ _ _ _ _ _ _ Hcl) as Hblne.
     assert (Hhl : length hs = length bl) by (unfold hs; apply handles_from_length).
@@ -942,20 +998,20 @@ Section Final.
       apply sorted_fk_le; [apply Hsb; exact Hj | exact Hin].
     - intros i j Hij Hj. unfold hs. rewrite (handles_nth bl 0 i ltac:(lia)), (handles_nth bl 0 j Hj). cbn [bh_off].
       pose proof (out_of_firstn_le bl i j Hij). lia.
-    - intros j Hj. unfold hs. rewrite (handles_nth bl 0 j Hj). cbn [bh_off metaBH].
-      unfold out3. rewrite lenN_app. pose proof (out_of_firstn_le_all bl j). lia.
+    - intros j Hj. unfold hs. rewrite (handles_nth bl 0 j Hj). cbn [bh_off].
+      pose proof (out_of_firstn_le_all bl j). lia.
   Qed.
 End Final.
 
 (* ------------------------------------------------------------ the round trip, end to end *)
 From GL Require Import Codec.TableIterProofs Codec.TableSliceProofs.
 
-Theorem table_roundtrip tp crc compress decompress fcontains c blockSize ri fgen kvs file verify strict :
+Theorem table_roundtrip tp crc compress decompress fcontains c blockSize ri fgen kvs file fname verify strict :
   tparams_ok tp -> (forall b, crc b < 2 ^ 32) -> (forall x, decompress (compress x) = Some x) ->
   comparer_ok c -> (forall k, cmp c [] k <> Gt) -> 1 <= ri ->
   sorted c kvs ->
   twrite tp crc compress c blockSize ri false fgen kvs = Some file -> lenN file < 2 ^ 32 ->
-  let rd := open_table tp crc decompress fcontains c file None verify in
+  let rd := open_table tp crc decompress fcontains c file fname verify in
   (forall k v, In (k, v) kvs -> tget c rd k = FFound k v) /\
   (forall k, (forall v, ~ In (k, v) kvs) -> tget c rd k = FNotFound) /\
   (forall key, tfind c rd key false =
@@ -972,7 +1028,7 @@ Theorem table_roundtrip tp crc compress decompress fcontains c blockSize ri fgen
        forall ops, fst (ti_run c rd t ops) = c_run c (restrict c start limit kvs) CSOI ops).
 Proof.
   intros Htp Hcrc Hcodec Hc Hel Hri Hs Hw Hsz rd.
-  destruct (table_wf_of_write tp Htp crc Hcrc compress decompress Hcodec fcontains c Hc Hel blockSize ri Hri fgen kvs file verify Hs Hw Hsz)
+  destruct (table_wf_of_write tp Htp crc Hcrc compress decompress Hcodec fcontains c Hc Hel blockSize ri Hri fgen kvs file fname verify Hs Hw Hsz)
     as (blocks & seps & hs & Hwf & Ek).
   fold rd in Hwf. rewrite <- Ek.
   split; [intros k v; apply (tget_present c Hc rd blocks seps hs Hwf)|].
